@@ -162,6 +162,26 @@ def judge(F, side, word, kind, d, want, got, desc, acc):
                        "replay": dict(desc, word=word, delivered=d), "expected": want, "observed": got})
 
 
+def _boundary_task(task):
+    """passwords and identities on length boundaries with distinguished trailing bytes, smallest group, every scalar"""
+    name, side, part, nparts = task
+    acc = Acc()
+    inst, why = T.try_get(name)
+    if inst is None:
+        acc.degrade("%s unavailable: %s" % (name, why))
+        return acc
+    B = C.boundary_strings()
+    mine = B[part::nparts]
+    for j, s in enumerate(mine):
+        for x in range(inst.q):
+            # as password (fixed ids) and as identity (fixed password)
+            check_session(inst, side, s, C.ids_for(side, 1), x, acc, all_elements=False, clone=False)
+            ids = (s,) if side == "S" else ((s, b"b") if (j + x) % 2 else (b"a", s))
+            check_session(inst, side, b"pw", ids, x, acc, all_elements=False, clone=False)
+            acc.inst(name, boundary_sessions=2)
+    return acc
+
+
 def _small_task(task):
     name, side, xs, cfgs = task
     acc = Acc()
@@ -246,14 +266,33 @@ def run(tier, seed):
             for i, x in enumerate(xs):
                 for cfg in ([CONFIGS[(i + "ABS".index(side)) % 6], CONFIGS[6 + (i + "ABS".index(side)) % 4]] if quick else CONFIGS):
                     tasks.append(("shipped", (name, side, x, cfg)))
-    tasks.sort(key=lambda t: -(T.get(t[1][0]).ref.esize * (30 if t[0] == "shipped" else T.get(t[1][0]).q)))
+    nb = 6 if quick else 12
+    for name in (["T11"] if quick else ["T11", "T23", "E37"]):
+        for side in "ABS":
+            for part in range(nb):
+                tasks.append(("boundary", (name, side, part, nb)))
+    for name in (["ParamsEd25519"] if quick else T.SHIPPED):
+        for side in "ABS":
+            tasks.append(("shipped-boundary", (name, side)))
+    tasks.sort(key=lambda t: -(T.get(t[1][0]).ref.esize * (30 if t[0].startswith("shipped") else T.get(t[1][0]).q)))
     core.pmerge(_dispatch, tasks, acc)
     _default_path(acc)
     return acc
 
 
+def _shipped_boundary_task(task):
+    name, side = task
+    acc = Acc()
+    inst, why = T.try_get(name)
+    if inst is None:
+        return acc
+    for j, s in enumerate([b for b in C.boundary_strings() if len(b) in (32, 64)][::3]):
+        check_session(inst, side, s, ((s[:32],) if side == "S" else (s[:32], b"")), 3 + j, acc, all_elements=False, clone=True)
+    return acc
+
+
 def _dispatch(t):
-    return _small_task(t[1]) if t[0] == "small" else _shipped_task(t[1])
+    return {"small": _small_task, "shipped": _shipped_task, "boundary": _boundary_task, "shipped-boundary": _shipped_boundary_task}[t[0]](t[1])
 
 
 def replay(rec):
